@@ -27,6 +27,19 @@ inductive Instr
   | use (n : PyName)            -- `n` used as an operand beside a tensor: is it CastLike'd?
   | enter                       -- `_enter_scope` (then/else block, loop body)
   | exit (outs : List PyName)   -- `_exit_scope`, then `outs` are bound to the If/Loop outputs
+  /- round 5: the statement translators as they are, error branches included -/
+  | enterLoop (lv : Option PyName) (state : List PyName)
+      -- `_translate_loop_stmt` up to the body: no loop-carried name → "The loop has no effect"; `_enter_scope`; the
+      -- loop variable (`for` only) and every loop-carried name are bound to fresh body-graph parameters
+  | exitLoop (state : List PyName)
+      -- after the body: `_exit_scope`; every loop-carried name is looked up in the OUTER scopes for the Loop node's
+      -- inputs ("Unbound name" when it has no value before the loop); then bound to the Loop outputs
+  | exitBranch (outs : List PyName)
+      -- end of `_translate_block`: every live output must be visible from inside the block (its own binding, or an
+      -- outer one that is copied), else "not assigned a value along a conditional branch"; `_exit_scope`
+  | endIf (outs : List PyName)
+      -- `_translate_if_stmt` after both blocks: no live output → "do not have any output variable"; the live
+      -- outputs are bound to the If node's outputs in the current scope
   deriving DecidableEq, Repr
 
 /-- Converter state: the scope stack (innermost first, latest binding first), the flat castable set, the name
@@ -36,9 +49,11 @@ structure St where
   castable : List VId
   next : VId
   obs : List (Option Bool)
+  /-- the translation was refused by one of the modelled error branches (`_fail`, "Unbound name") -/
+  err : Bool := false
   deriving Repr
 
-def St.init : St := ⟨[[]], [], 0, []⟩
+def St.init : St := ⟨[[]], [], 0, [], false⟩
 
 def lookupScope (n : PyName) : List (PyName × VId) → Option VId
   | [] => none
@@ -68,6 +83,18 @@ def step (s : St) : Instr → St
   | .exit outs =>
     let r := bindOuts outs s.locals.tail s.next
     { s with locals := r.1, next := r.2 }
+  | .enterLoop lv state =>
+    let r := bindOuts (lv.toList ++ state) ([] :: s.locals) s.next
+    { s with locals := r.1, next := r.2, err := s.err || state.isEmpty }
+  | .exitLoop state =>
+    let outer := s.locals.tail
+    let r := bindOuts state outer s.next
+    { s with locals := r.1, next := r.2, err := s.err || state.any (fun n => (lookup n outer).isNone) }
+  | .exitBranch outs =>
+    { s with locals := s.locals.tail, err := s.err || outs.any (fun n => (lookup n s.locals).isNone) }
+  | .endIf outs =>
+    let r := bindOuts outs s.locals s.next
+    { s with locals := r.1, next := r.2, err := s.err || outs.isEmpty }
 
 def run (prog : List Instr) : St := prog.foldl step St.init
 
@@ -76,9 +103,10 @@ def run (prog : List Instr) : St := prog.foldl step St.init
 structure Sp where
   env : List (List (PyName × Bool))
   obs : List (Option Bool)
+  err : Bool := false
   deriving Repr
 
-def Sp.init : Sp := ⟨[[]], []⟩
+def Sp.init : Sp := ⟨[[]], [], false⟩
 
 def lookupScopeS (n : PyName) : List (PyName × Bool) → Option Bool
   | [] => none
@@ -100,6 +128,15 @@ def stepS (s : Sp) : Instr → Sp
   | .use n => { s with obs := s.obs ++ [lookupS n s.env] }
   | .enter => { s with env := [] :: s.env }
   | .exit outs => { s with env := outs.foldl (fun e n => bindS n false e) s.env.tail }
+  | .enterLoop lv state =>
+    { s with env := (lv.toList ++ state).foldl (fun e n => bindS n false e) ([] :: s.env), err := s.err || state.isEmpty }
+  | .exitLoop state =>
+    { s with env := state.foldl (fun e n => bindS n false e) s.env.tail,
+             err := s.err || state.any (fun n => (lookupS n s.env.tail).isNone) }
+  | .exitBranch outs =>
+    { s with env := s.env.tail, err := s.err || outs.any (fun n => (lookupS n s.env).isNone) }
+  | .endIf outs =>
+    { s with env := outs.foldl (fun e n => bindS n false e) s.env, err := s.err || outs.isEmpty }
 
 def runS (prog : List Instr) : Sp := prog.foldl stepS Sp.init
 
